@@ -24,7 +24,7 @@ import (
 
 func init() {
 	vc.Register(&vc.Check{ID: "C04", Level: "model_checking", Run: run, Replay: replay, QuickSec: 170, ThoroSec: 1800,
-		Rule: "real pace.DoPACE against the independent chip (own EC arithmetic, fixed-width ECKA secret per TR-03111) for ALL 77 configurations (parameter id 8..18 x {GM-3DES, GM-AES128/192/256, CAM-AES128/192/256}); terminal and chip randomness are explorer-owned (crypto/rand.Reader seam): scalar alphabet per role {2, n-2, pattern} in full product (quick: on 4 configurations; thorough: all 77) plus, on all 77, the slices where the shared x-coordinate or a transmitted public coordinate has a leading zero octet (found by deterministic search), passwords {TD1, TD2, TD3, TD1 extended, CAN}. Success oracle: Success, chip completed, first protected read works on both sides (same keys and counter), CAM result successful for CAM. Fail-closed (one deviation per run): wrong password, every single-bit flip of the encrypted nonce, mapping/agreement key replaced by {other valid point, off-curve point, the terminal's own key, truncated, 00}, every single-bit flip of the token, every single-bit flip of the encrypted chip-authentication data; plus a device WITHOUT the password answering every step from {echo of the terminal's value, G, 2G} x {echo of the terminal's token, zeros, pattern} (complete 27-way product, reflection attacks). Selection: every ordered subset (<=3) of a 7-entry PACEInfo alphabet containing a supported entry. states = protocol runs, transitions = exchanges; distinct_nontrivial = distinct (configuration, scalar/deviation class, outcome)",
+		Rule:   "real pace.DoPACE against the independent chip (own EC arithmetic, fixed-width ECKA secret per TR-03111) for ALL 77 configurations (parameter id 8..18 x {GM-3DES, GM-AES128/192/256, CAM-AES128/192/256}); terminal and chip randomness are explorer-owned (crypto/rand.Reader seam): scalar alphabet per role {2, n-2, pattern} in full product (quick: on 4 configurations; thorough: all 77) plus, on all 77, the slices where the shared x-coordinate or a transmitted public coordinate has a leading zero octet (found by deterministic search), passwords {TD1, TD2, TD3, TD1 extended, CAN}. Success oracle: Success, chip completed, first protected read works on both sides (same keys and counter), CAM result successful for CAM. Fail-closed (one deviation per run): wrong password, every single-bit flip of the encrypted nonce, mapping/agreement key replaced by {other valid point, off-curve point, the terminal's own key, truncated, 00}, every single-bit flip of the token, every single-bit flip of the encrypted chip-authentication data; plus a device WITHOUT the password answering every step from {echo of the terminal's value, G, 2G} x {echo of the terminal's token, zeros, pattern} (complete 27-way product, reflection attacks). Selection: every ordered subset (<=3) of a 7-entry PACEInfo alphabet containing a supported entry. Histories: every sequence of up to 3 (thorough 4) runs on one session over {conforming chip, password-less replay of the recorded previous run, chip with another password}, through one reused Pace object and a new one per run. states = protocol runs, transitions = exchanges; distinct_nontrivial = distinct (configuration, scalar/deviation class, outcome)",
 		Assume: []string{"refchip PACE follows ICAO 9303-11 §4.4 with BSI TR-03111 FE2OS encoding of the shared secret", "refcrypto anchored to ICAO App. D; EC arithmetic self-checked (generator on curve, n*G = infinity)", "MAC / discrete-log hardness not searched"}})
 }
 
@@ -38,16 +38,16 @@ type advert struct {
 }
 
 type paceCase struct {
-	ParamID  int       `json:"param"`
-	Cipher   int       `json:"cipher"`
-	CAM      bool      `json:"cam"`
-	Pwd      string    `json:"pwd"`     // td1 td2 td3 td1x can
-	Scalars  [5]string `json:"scalars"` // terminal map, terminal KA, chip map, chip KA, nonce: "2" "n-2" "pt" or "lz:<role>"
-	LZ       string    `json:"lz,omitempty"`
-	Dev      string    `json:"dev,omitempty"`
-	Bit      int       `json:"bit,omitempty"`
-	Advert   []advert  `json:"advert,omitempty"`  // CardAccess contents (default: just the configuration)
-	ChipWrongPwd bool  `json:"chip_wrong_pwd,omitempty"`
+	ParamID      int       `json:"param"`
+	Cipher       int       `json:"cipher"`
+	CAM          bool      `json:"cam"`
+	Pwd          string    `json:"pwd"`     // td1 td2 td3 td1x can
+	Scalars      [5]string `json:"scalars"` // terminal map, terminal KA, chip map, chip KA, nonce: "2" "n-2" "pt" or "lz:<role>"
+	LZ           string    `json:"lz,omitempty"`
+	Dev          string    `json:"dev,omitempty"`
+	Bit          int       `json:"bit,omitempty"`
+	Advert       []advert  `json:"advert,omitempty"` // CardAccess contents (default: just the configuration)
+	ChipWrongPwd bool      `json:"chip_wrong_pwd,omitempty"`
 }
 
 type result struct {
@@ -55,7 +55,9 @@ type result struct {
 	Exchanges          int
 }
 
-func cipherAlg(c int) refcrypto.Alg { return []refcrypto.Alg{0, refcrypto.TDES, refcrypto.AES128, refcrypto.AES192, refcrypto.AES256}[c] }
+func cipherAlg(c int) refcrypto.Alg {
+	return []refcrypto.Alg{0, refcrypto.TDES, refcrypto.AES128, refcrypto.AES192, refcrypto.AES256}[c]
+}
 
 func oidStr(mapping, cipher int) string {
 	return fmt.Sprintf("0.4.0.127.0.7.2.2.4.%d.%d", mapping, cipher)
@@ -755,6 +757,43 @@ sel:
 		pc := paceCase{ParamID: first.ParamID, Cipher: first.Cipher, CAM: first.Mapping == 6, Pwd: "td3", Scalars: pt, Advert: sub}
 		do(sec4, pc, fmt.Sprintf("sel/%d", i))
 	}
+	// (5) histories of runs on one session
+	sec5 := "histories of runs on one session"
+	depth := 3
+	if c.Thorough() {
+		depth = 4
+	}
+	seqs := histSeqs(depth)
+	hcfg := []histCase{{ParamID: 13, Cipher: 2}, {ParamID: 12, Cipher: 1}, {ParamID: 13, Cipher: 2, CAM: true}, {ParamID: 16, Cipher: 4, CAM: true}}
+	c.SecBound(sec5, fmt.Sprintf("%d configurations x all %d histories of up to %d runs over {conforming chip, password-less device replaying every recorded response of the last conforming run, conforming chip with another password} x {one Pace object for all runs, a new one per run}; terminal randoms never repeat", len(hcfg), len(seqs), depth))
+	for _, h0 := range hcfg {
+		for _, sq := range seqs {
+			for _, same := range []bool{true, false} {
+				if !c.Mine() {
+					continue
+				}
+				if c.Expired() {
+					c.SecNotExhaustive(sec5, "deadline")
+					break
+				}
+				hc := h0
+				hc.Seq, hc.SameObject = sq, same
+				r := runHist(hc)
+				c.AddStates(int64(len(sq)))
+				c.AddTrans(int64(r.Exchanges))
+				c.AddTraces(1)
+				c.Outcome(sec5, r.Outcome)
+				c.Distinct(fmt.Sprintf("hist/%d/%d/%v/%s/%v/%s", hc.ParamID, hc.Cipher, hc.CAM, sq, same, r.Outcome))
+				if r.Key == "harness" {
+					c.HarnessError("%s", r.What)
+					continue
+				}
+				if r.Key != "" {
+					c.Violation(sec5, r.Key, r.What, hc, func() bool { return runHist(hc).Key != "" })
+				}
+			}
+		}
+	}
 	if c.Shard == 0 {
 		c.Sample(paceCase{ParamID: 13, Cipher: 2, Pwd: "td3", Scalars: pt, LZ: "shared-x/terminal-ka"})
 		c.Sample(paceCase{ParamID: 16, Cipher: 4, CAM: true, Pwd: "can", Scalars: [5]string{"2", "n-2", "pt", "2", "n-2"}, Dev: "token-bitflip", Bit: 17})
@@ -762,6 +801,17 @@ sel:
 }
 
 func replay(c *vc.Ctx, raw json.RawMessage) string {
+	var hd struct {
+		Section string   `json:"section"`
+		Case    histCase `json:"case"`
+	}
+	if json.Unmarshal(raw, &hd) == nil && hd.Case.Seq != "" {
+		r := runHist(hd.Case)
+		if r.Key != "" {
+			c.Violation(hd.Section, r.Key, r.What, hd.Case, nil)
+		}
+		return fmt.Sprintf("history %+v -> %s; verdict: %s %s", hd.Case, r.Outcome, r.Key, r.What)
+	}
 	var doc struct {
 		Section string   `json:"section"`
 		Case    paceCase `json:"case"`
